@@ -759,7 +759,7 @@ pub fn run(ctx: &Ctx) -> i32 {
     });
     let ev = Evidence {
         level: "exploration",
-        rule: "One sim = one engine process lifetime: a simulated GUI plays 1-4 games (startpos, playout FENs, constructed mate/stalemate/only-move/promotion positions, positions lost by force (every move allows mate in one), positions with more than 128 legal moves, promotion races; isready/stop/setoption lines at seeded places; a third of the games without ucinewgame and revisiting earlier roots so that TT/killers/history are stale; one game in five takes up an earlier game of the same process again with the same start and moves), sending position+go per move and playing the engine's answer plus a seeded reply on the rules model. go parameters: depth 1..4, movetime 0/1/small/large, wtime/btime[/winc/binc] in four regimes (ample, near the 5 s reserve, below it, zero) in random token order. The clock's per-sim cost model (1us..5ms per node, optional per-read cost, stall jumps, forced expiry at reads 1..6 of seeded searches) decides where each budget expires. Oracle per go: exactly one bestmove, last line, legal per the rules model and never 0000 when a legal move exists (the token printed for a position without legal moves is not prescribed by the property and not judged), no crash. Evaluations = go commands judged; a case is distinct by (piece count, legal-move count, budget, expired?, go kind). Also: tiny endgames (two kings and one to five men) searched to depth 5-7 without a clock (mates and stalemates deep in the tree; a search that enters 400 000 nodes in a row without a quiescence node, a store attempt or an output line is cut and reported as diverged), and one game in forty with a history of 1600-4500 plies (a position line of 8-22 KB through the real input loop).".into(),
+        rule: "One sim = one engine process lifetime: a simulated GUI plays 1-4 games (startpos, playout FENs, constructed mate/stalemate/only-move/promotion positions, positions lost by force (every move allows mate in one), positions with more than 128 legal moves, promotion races; isready/stop/setoption lines at seeded places; a third of the games without ucinewgame and revisiting earlier roots so that TT/killers/history are stale; one game in five takes up an earlier game of the same process again with the same start and moves), sending position+go per move and playing the engine's answer plus a seeded reply on the rules model. go parameters: depth 1..4, movetime 0/1/small/large, wtime/btime[/winc/binc] in four regimes (ample, near the 5 s reserve, below it, zero) in random token order. The clock's per-sim cost model (1us..5ms per node, optional per-read cost, stall jumps, forced expiry at reads 1..6 of seeded searches) decides where each budget expires. Oracle per go: exactly one bestmove, last line, legal per the rules model and never 0000 when a legal move exists (the token printed for a position without legal moves is not prescribed by the property and not judged), no crash. Evaluations = go commands judged; a case is distinct by (piece count, legal-move count, budget, expired?, go kind). Also: tiny endgames (two kings and one to five men) searched to depth 5-7 without a clock (mates and stalemates deep in the tree; a search that enters 400 000 nodes in a row without a quiescence node, a store attempt or an output line is cut and reported as diverged), and one game in forty with a history of 1600-4500 plies (a position line of 8-22 KB through the real input loop). One go in eight carries a searchmoves list; a clocked go that is unanswered after the step cap of 3 million nodes (budgets are worth fewer than 50 000) is a violation.".into(),
         extra: serde_json::Map::new(),
         assumptions: vec![
             "a depth-limited go that hits the 3M-node step cap is inconclusive (counted), never a violation: C03 sets no time bound for go depth".into(),
